@@ -98,12 +98,13 @@ func runC05(line string) string {
 	}()
 	port := freePort()
 	cfg := tcpConfig(port)
-	p, err := proc.New(fmt.Sprintf("c05x%d", port), cfg, []*host.Host{host.New(ln.Addr().String())})
+	pname := fmt.Sprintf("c05x%d", nextProcSeq())
+	p, err := proc.New(pname, cfg, []*host.Host{host.New(ln.Addr().String())})
 	if err != nil {
 		return "NEW-FAILED"
 	}
 	p.Start()
-	sp := &simProxy{p: p, name: fmt.Sprintf("c05x%d", port), addr: fmt.Sprintf("127.0.0.1:%d", port)}
+	sp := &simProxy{p: p, name: pname, addr: fmt.Sprintf("127.0.0.1:%d", port)}
 	var c net.Conn
 	for t := 0; t < 300; t++ {
 		c, err = net.DialTimeout("tcp", sp.addr, 100*time.Millisecond)
